@@ -188,6 +188,17 @@ func (vc *VC) query(o *Obligation) *Query {
 	q := &Query{Name: o.Name}
 	q.Decls = append(q.Decls, vc.literalDecls()...)
 	q.Decls = append(q.Decls, vc.decls...)
+	if o.Cover {
+		// reachability is judged without the lemmas (a false lemma is reported by
+		// its own obligation and must not make the cover vacuous)
+		for i, a := range vc.assumes[:o.NAssume] {
+			if !vc.lemma[i] {
+				q.Assumes = append(q.Assumes, a)
+			}
+		}
+		q.Goal = o.Goal
+		return q
+	}
 	q.Assumes = vc.assumes[:o.NAssume]
 	q.Goal = o.Goal
 	return q
